@@ -232,5 +232,6 @@ def fallback_lookups(rep, level):
 
 
 def replay(rep, body):
+    from ..evidence import rerun_and_match
     print(json.dumps(body['what'])[:800])
-    return False
+    return rerun_and_match(run, body)
